@@ -109,6 +109,14 @@ func C18(c *fw.Ctx) {
 				cj.Projects[slot] = proto.ConcProject{Name: p.Name, Files: p.Files, Root: p.Root}
 				slot++
 			}
+			// different projects whose user types have the same names and inherit from each other through allOf (every project has
+			// its "@entity", "@named", "@base"): state that is kept per type *name* instead of per catalog shows when they are
+			// serialised at the same time; the inheriting type stands before the inherited one, so the expansion is done late
+			for k, slot := range []int{4, 10, 15} {
+				cj.Projects[slot] = proto.ConcProject{Name: fmt.Sprintf("same-names-%d.jst", k), Content: []byte(fmt.Sprintf(
+					"JSIGHT 0.3\nGET /e%d\n  200 @entity\n  404\n    { // {allOf: \"@named\"}\n      \"own%d\": %d\n    }\nTYPE @entity\n  { // {allOf: \"@named\"}\n    \"e%d\": %d\n  }\nTYPE @named\n  { // {allOf: \"@base\"}\n    \"name%d\": \"n\"\n  }\nTYPE @base\n  {\n    \"id%d\": %d\n  }\n",
+					k, k, k, k, k, k, k, k))}
+			}
 			// every other batch is a cold start: a fresh process whose first use of the library is concurrent
 			j := &proto.Job{ID: fmt.Sprintf("conc/batch-%d", b), Conc: cj}
 			if b%2 == 1 {
